@@ -29,6 +29,14 @@ pub struct Knobs {
     /// percent chance that an `ol` gets a start attribute
     pub ol_start: u64,
     pub max_words: u64,
+    /// hrefs without letters ("/3/"), so that footnotes never contain token characters
+    pub href_digits: bool,
+    /// sometimes emit script/style/head>title elements with token text inside (must never be rendered)
+    pub hidden_elems: bool,
+    /// digit-only words and `<sup>12</sup>`
+    pub digits: bool,
+    /// with css_attrs: only class attributes (no style/color/bgcolor attributes)
+    pub classes_only: bool,
 }
 
 impl Knobs {
@@ -57,6 +65,10 @@ impl Knobs {
             unknown_elems: true,
             ol_start: 80,
             max_words: 6,
+            href_digits: false,
+            hidden_elems: false,
+            digits: true,
+            classes_only: false,
         }
     }
     pub fn no_css(mut self) -> Knobs {
@@ -128,7 +140,7 @@ impl<'a> Gen<'a> {
             r.pick(WIDE).to_string()
         } else if self.k.zero && k < 18 {
             r.pick(ZERO).to_string()
-        } else if k < 24 {
+        } else if k < 24 && self.k.digits {
             r.pick(DIGITS).to_string()
         } else {
             r.pick(WORDS).to_string()
@@ -149,13 +161,13 @@ impl<'a> Gen<'a> {
             if r.p(22) {
                 s.push_str(&format!(" class=\"{}\"", r.pick(&["a", "b", "a b", "c-d", "b  a"])));
             }
-            if r.p(7) {
+            if !self.k.classes_only && r.p(7) {
                 s.push_str(&format!(
                     " style=\"{}\"",
                     r.pick(&["color:red", "color:#00ff00;background-color:#000", "display:none", "color:blue !important", "white-space:pre", "height:0;overflow:hidden", "color:red;;", "bogus", "white-space:pre-wrap"])
                 ));
             }
-            if r.p(3) {
+            if !self.k.classes_only && r.p(3) {
                 s.push_str(r.pick(&[" color=red", " bgcolor=#123456", " bgcolor=00aabb", " color=\"#f00\""]));
             }
         }
@@ -207,7 +219,11 @@ impl<'a> Gen<'a> {
                     self.kinds.insert("a");
                     let ida = self.idattr();
                     let nm = if self.k.ids && self.r.p(10) { format!(" name=nm{}", self.r.b(5)) } else { String::new() };
-                    out.push_str(&format!("<a href=\"http://u{}/\"{ida}{nm}>", self.r.b(9)));
+                    if self.k.href_digits {
+                        out.push_str(&format!("<a href=\"/{}/\"{ida}{nm}>", self.r.b(9)));
+                    } else {
+                        out.push_str(&format!("<a href=\"http://u{}/\"{ida}{nm}>", self.r.b(9)));
+                    }
                     if self.r.p(92) {
                         self.inline(d - 1, out);
                     }
@@ -221,7 +237,7 @@ impl<'a> Gen<'a> {
                 12 if self.k.sup => {
                     self.kinds.insert("sup");
                     out.push_str("<sup>");
-                    if self.r.p(50) {
+                    if self.k.digits && self.r.p(50) {
                         out.push_str("12");
                     } else {
                         self.inline(d - 1, out);
@@ -250,7 +266,7 @@ impl<'a> Gen<'a> {
         }
     }
     pub fn block(&mut self, d: u32, out: &mut String) {
-        let c = if d == 0 { self.r.b(3) } else { self.r.b(13) };
+        let c = if d == 0 { self.r.b(3) } else { self.r.b(14) };
         match c {
             0 | 1 => {
                 self.kinds.insert("p");
@@ -353,6 +369,14 @@ impl<'a> Gen<'a> {
                 }
             }
             11 if self.k.comments => out.push_str("<!-- c -->\n"),
+            12 if self.k.hidden_elems => {
+                let w = self.word();
+                out.push_str(&match self.r.b(3) {
+                    0 => format!("<script>{w}</script>"),
+                    1 => format!("<style>{w}</style>"),
+                    _ => format!("<hr><link rel={w}>"),
+                });
+            }
             _ => {
                 self.kinds.insert("p");
                 out.push_str("<p>");
